@@ -22,6 +22,7 @@ platform branches not compiled on this host (_WIN32: _aligned_malloc); third-par
 from __future__ import annotations
 
 import os
+import re
 
 from .. import cfront, cir, engine, paths, r_misc
 from ..cfront import AnalysisError
@@ -421,6 +422,103 @@ def publish_init(res):
         raise AnalysisError(f"{IO}: no publication of a fresh object through an out-parameter found")
 
 
+
+def alloc_guard(res):
+    """R-ALLOC-GUARD: in the C++ API functions that collect their releases in a scope guard (a local of the `Cleanup` class, to
+    which lambdas are appended with +=), every block obtained from mju_malloc is handed to the guard before the function can
+    leave: between the assignment `X = mju_malloc(..)` and the `guard += [..]{ .. mju_free(<X>) .. }` that releases it, in
+    source order, there is no `return` other than under a test that X itself is null.  (A release registered only after a
+    second allocation leaks the first block when the second fails.)"""
+    UA = "src/user/user_api.cc"
+    ir = cfront.load_tu(UA, lang="cxx")
+    res.rule("R-ALLOC-GUARD", "a block from mju_malloc is handed to the function's scope guard before any return that is not under its "
+             "own null test", floor=2)
+    n = 0
+    for d in ir["decls"]:
+        for fn in cir.walk(d):
+            if fn.get("k") not in ("CXXMethodDecl", "FunctionDecl") or cir.body(fn) is None or (fn.get("file") or UA) != UA:
+                continue
+            guards = {x.get("n") for x in cir.walk(fn) if x.get("k") == "VarDecl" and re.search(r"\bCleanup\b", x.get("t") or "")}
+            if not guards:
+                continue
+            # source-order event list: (kind, payload, enclosing null tests)
+            events = []
+
+            def visit(node, tests):
+                k = node.get("k")
+                if k == "LambdaExpr":
+                    return
+                if k == "IfStmt":
+                    kids = [c for c in cir.kids(node)]
+                    idx = int(bool(node.get("hasInit"))) + int(bool(node.get("hasVar")))
+                    cond = kids[idx]
+                    visit(cond, tests)
+                    ct = cir.text(cond).replace(" ", "")
+                    m_ = re.fullmatch(r"\(?(.+?)==(?:nullptr|NULL|0)\)?", ct) or re.fullmatch(r"!\(?(.+?)\)?", ct)
+                    nulls = {m_.group(1)} if m_ else set()
+                    m2 = re.fullmatch(r"\(?(.+?)(?:!=(?:nullptr|NULL|0))?\)?", ct)
+                    if len(kids) > idx + 1 and kids[idx + 1] is not None:
+                        visit(kids[idx + 1], set(tests) | nulls)
+                    if len(kids) > idx + 2 and kids[idx + 2] is not None:
+                        visit(kids[idx + 2], set(tests) | ({m2.group(1)} if (m2 and not m_) else set()))
+                    return
+                ksa = [c for c in cir.kids(node) if c is not None]
+                if (k == "BinaryOperator" and node.get("op") == "=") or \
+                        (k == "CXXOperatorCallExpr" and ksa and cir.text(ksa[0]).replace(" ", "") == "operator=" and len(ksa) > 2):
+                    ks = ksa
+                    lhs, rhs = (ks[0], ks[-1]) if k == "BinaryOperator" else (ks[1], ks[-1])
+                    if any(cir.is_call(z) and cir.callee(z) == "mju_malloc" for z in cir.walk(rhs)):
+                        tests.discard(cir.text(lhs).replace(" ", ""))       # what was known about the old value is gone
+                        events.append(("alloc", cir.text(lhs).replace(" ", ""), frozenset(tests), node.get("line")))
+                if k == "VarDecl":
+                    iv = [c for c in cir.kids(node) if c is not None]
+                    if iv and any(cir.is_call(z) and cir.callee(z) == "mju_malloc" for z in cir.walk(iv[-1])):
+                        events.append(("alloc", node.get("n"), tests, node.get("line")))
+                ks0 = [c for c in cir.kids(node) if c is not None]
+                if (k == "CompoundAssignOperator" and node.get("op") == "+=") or \
+                        (k == "CXXOperatorCallExpr" and ks0 and cir.text(ks0[0]).replace(" ", "") == "operator+=" and len(ks0) > 1):
+                    ks = ks0
+                    tgt = cir.text(ks[1] if k == "CXXOperatorCallExpr" else ks[0])
+                    if tgt in guards:
+                        freed = set()
+                        for lam in cir.walk(node):
+                            if lam.get("k") == "LambdaExpr":
+                                for z in cir.walk(lam):
+                                    if cir.is_call(z) and cir.callee(z) in ("mju_free", "free") and cir.args(z):
+                                        freed.add(cir.text(cir.args(z)[0]).replace(" ", ""))
+                        events.append(("guard", freed, frozenset(tests), node.get("line")))
+                        return
+                if k == "ReturnStmt":
+                    events.append(("return", None, frozenset(tests), node.get("line")))
+                for c in cir.kids(node):
+                    if c is not None:
+                        visit(c, tests)
+            visit(cir.body(fn), set())
+            open_ = {}
+            for kind, payload, tests, line in events:
+                if kind == "alloc":
+                    open_[payload] = line
+                elif kind == "guard":
+                    for f_ in payload:
+                        open_.pop(f_, None)
+                elif kind == "return":
+                    for x_, l0 in list(open_.items()):
+                        if x_ in tests:
+                            continue                      # the block itself is null on this path: nothing to release
+                        n += 1
+                        res.bad("R-ALLOC-GUARD", f"{fn.get('n')}:{x_}", UA, line,
+                                f"{fn.get('n')} can return at line {line} after `{x_} = mju_malloc(..)` (line {l0}) and before the release of "
+                                f"`{x_}` is handed to the scope guard: the block leaks on that path (e.g. when a later allocation fails)")
+                        open_.pop(x_, None)
+            for kind, payload, tests, line in events:
+                if kind == "alloc" and not any(v.get("rule") == "R-ALLOC-GUARD" and v.get("construct") == f"{fn.get('n')}:{payload}"
+                                               for v in res.violations):
+                    n += 1
+                    res.ok("R-ALLOC-GUARD", f"{fn.get('n')}:{payload}", {"line": line})
+    if n == 0:
+        raise AnalysisError(f"{UA}: no mju_malloc inside a function with a Cleanup scope guard found")
+
+
 def run(res, tier):
     res.rule("R-WHO-CALLS", "raw allocators referenced only inside the choke point of engine_util_errmem.c", floor=55)
     u, raw_funcs = who_calls(res)
@@ -428,6 +526,7 @@ def run(res, tier):
     mustpass(res, u, raw_funcs)
     free_null(res)
     publish_init(res)
+    alloc_guard(res)
     res.explanation = (
         "References to raw allocators in the clang AST of all C and C++ translation units of src/engine, src/user, src/xml "
         "and of the src/user, src/xml headers (calls, address-taken, dependent names in templates); caller chains inside "
@@ -446,6 +545,16 @@ XU = "src/xml/xml_util.cc"
 UO = "src/user/user_util.cc"
 IO = "src/engine/engine_io.c"
 MUTANTS = [
+    {"id": "guard-registered-after-second-alloc", "expect": ("R-ALLOC-GUARD", "mj_parse:resource"),
+     "edits": [("src/user/user_api.cc", "    cleanup  += [resource]() {\n      if (resource) mju_free(resource);\n    };\n\n    if (resource == nullptr) {",
+                "    if (resource == nullptr) {"),
+               ("src/user/user_api.cc", "    cleanup              += [resource]() {\n      if (resource) mju_free(resource->name);\n    };\n", ""),
+               ("src/user/user_api.cc", "    memcpy(resource->name, fullname.c_str(), sizeof(char) * (n + 1));\n",
+                "    memcpy(resource->name, fullname.c_str(), sizeof(char) * (n + 1));\n"
+                "    cleanup += [resource]() { mju_free(resource->name); mju_free(resource); };\n")]},
+    {"id": "ctl-guard-null-test-first", "expect": None,
+     "edits": [("src/user/user_api.cc", "    cleanup  += [resource]() {\n      if (resource) mju_free(resource);\n    };\n\n    if (resource == nullptr) {\n      if (error) {\n        strncpy(error, \"could not allocate memory\", error_sz);\n        error[error_sz - 1] = '\\0';\n      }\n      return nullptr;\n    }\n",
+                "    if (resource == nullptr) {\n      if (error) {\n        strncpy(error, \"could not allocate memory\", error_sz);\n        error[error_sz - 1] = '\\0';\n      }\n      return nullptr;\n    }\n    cleanup  += [resource]() { mju_free(resource); };\n")]},
     {"id": "malloc-in-engine-io", "expect": ("R-WHO-CALLS", ":malloc"),
      "edits": [(IO, "  d->arena = mju_malloc(d->narena);", "  d->arena = malloc(d->narena);")]},
     {"id": "strdup-in-cxx", "expect": ("R-WHO-CALLS", "strdup"),
